@@ -3,6 +3,8 @@
 
 package bal_slb
 
+import "time"
+
 // Hooks for the out-of-tree verification harness of property C01 (build tag verif). Add-only.
 
 // VerifC01Dump returns, in list order and under the BalanceRR lock, AddrInfo, weight and current
@@ -29,4 +31,44 @@ func (brr *BalanceRR) VerifC01SetAvail(addrInfo string, avail bool) bool {
 		}
 	}
 	return false
+}
+
+// VerifC01DumpSS returns, in list order and under the lock, the inSlowStart flag and weightSS.final of
+// every BackendRR.
+func (brr *BalanceRR) VerifC01DumpSS() (inSS []bool, final []int) {
+	brr.Lock()
+	defer brr.Unlock()
+	for _, b := range brr.backends {
+		inSS = append(inSS, b.inSlowStart)
+		final = append(final, b.weightSS.final)
+	}
+	return
+}
+
+// VerifC01SetRestart calls SetRestart(true) on the backend with the given AddrInfo (what the health
+// checker does when a backend comes back); false if there is none.
+func (brr *BalanceRR) VerifC01SetRestart(addrInfo string) bool {
+	brr.Lock()
+	defer brr.Unlock()
+	for _, b := range brr.backends {
+		if b.backend.AddrInfo == addrInfo {
+			b.backend.SetRestart(true)
+			return true
+		}
+	}
+	return false
+}
+
+// VerifC01SetElapsed moves weightSS.startTime of every backend that is in slow start to now-d, so that
+// the next updateSlowStart observes time.Since(startTime) = d (+ the few microseconds until it runs).
+// No sleeping: the harness chooses elapsed values this way.
+func (brr *BalanceRR) VerifC01SetElapsed(d time.Duration) {
+	brr.Lock()
+	defer brr.Unlock()
+	now := time.Now()
+	for _, b := range brr.backends {
+		if b.inSlowStart {
+			b.weightSS.startTime = now.Add(-d)
+		}
+	}
 }
